@@ -182,6 +182,9 @@ class SpecMixin:
             return None      # filled by the contract's setup (needs `self`)
         if desc.startswith('const:'):
             return eval(desc[6:], {})
+        if desc == 'hdrlist':
+            from .hdrmodel import sym_hdrlist
+            return sym_hdrlist(self, desc, name)
         if desc.startswith('frame:'):
             from .deps_model import sym_frame
             return sym_frame(self, desc, name)
